@@ -13,6 +13,9 @@ from .engine import Outcome, dec, enc
 from .ref import exact as X
 
 EPS = np.finfo(float).eps
+KAPPA14 = 1e13  # determinant ratios are compared for conditioning below this
+K14 = 3e4  # tolerance factor in units of eps*sqrt(kappa)*M (worst measured: 1.7e3)
+KCW = 2e3  # tolerance factor in units of eps*kappa*Mcw, Mcw = component-wise magnitude (worst measured: 26)
 K = 1e4  # tolerance factor in units of eps*kappa*T*M (worst measured on the unchanged tree: ~2e2)
 
 
@@ -59,7 +62,8 @@ class Driver:
                      Options.NPT.value: npt, Options.MAX_EVAL.value: 10 ** 6, Options.FEASIBILITY_TOL.value: 1e-8,
                      Options.TARGET.value: -np.inf, Options.DEBUG.value: False}
         it0 = Interpolation(self.pb, dict(self.opts))
-        vals = init["vals"]
+        self.vscale = float(init.get("vscale", 1.0))  # all function values are multiplied by it
+        vals = [v * self.vscale for v in init["vals"]]
         self.rec = []  # the values fed for each interpolation index
         for k in range(npt):
             f, c2 = vals[2 * k], vals[2 * k + 1]
@@ -131,12 +135,28 @@ class Driver:
         wWw = float((rs * w) @ us)
         d4 = 0.5 * float(d @ d) ** 2
         nz, nu, nw = float(np.linalg.norm(zs)), float(np.linalg.norm(us)), float(np.linalg.norm(rs * w))
-        return (abs(rs[k]) * nz * (d4 + abs(wWw)) + abs(alpha) * nw * nu + 2.0 * abs(tau) * abs(rs[k]) * nu
-                + abs(alpha) * (d4 + abs(wWw)) + tau * tau)
+        norm_wise = (abs(rs[k]) * nz * (d4 + abs(wWw)) + abs(alpha) * nw * nu + 2.0 * abs(tau) * abs(rs[k]) * nu
+                     + abs(alpha) * (d4 + abs(wWw)) + tau * tau)
+        # component-wise variant: each solution component is a sum over the eigenpairs of
+        # v_i[j] (v_i.r)/lambda_i; its rounding is proportional to the sum of the absolute terms
+        try:
+            lam, V = np.linalg.eigh(a)
+            with np.errstate(all="ignore"):
+                cz = np.abs(V * ((V.T @ (rs * ek)) / lam)[None, :]).sum(axis=1)
+                cu = np.abs(V * ((V.T @ (rs * w)) / lam)[None, :]).sum(axis=1)
+            comp_wise = (abs(rs[k]) * cz[k] * (d4 + abs(wWw)) + abs(alpha) * float(np.abs(rs * w) @ cu)
+                         + 2.0 * abs(tau) * abs(rs[k]) * cu[k] + abs(alpha) * (d4 + abs(wWw)) + tau * tau)
+            if not math.isfinite(comp_wise):
+                comp_wise = norm_wise
+        except np.linalg.LinAlgError:
+            comp_wise = norm_wise
+        self._m_cw = float(comp_wise)
+        return float(norm_wise)
 
     # ------------------------------------------------------------------ operations
     def replace(self, k, j, offs, e, f, c2):
         m = self.m
+        f, c2 = f * self.vscale, c2 * self.vscale
         k = k % self.npt
         j = j % self.npt
         offs = np.array(offs[: self.n], float)
@@ -161,17 +181,25 @@ class Driver:
         far = float(np.max(np.linalg.norm(pts_now - np.asarray(xn, float), axis=1))) > 4.0 * self.diameter()
         if far:
             self.out.label("candidate-beyond-4-diameters")
-        if "C14" in self.focus and kap < 1e10 and 1e-6 < abs(ratio_f) < 1e6 and not far:
+        if "C14" in self.focus and kap < KAPPA14 and 1e-6 < abs(ratio_f) < 1e6 and not far:
             with np.errstate(all="ignore"):
                 sig_k = float(m.determinants(np.array(xn, float), k))
                 sig_all = m.determinants(np.array(xn, float))
             M = self.formula_magnitude(k, xn)
             M = max(1.0, abs(ratio_f)) if M is None else max(M, abs(ratio_f), 1.0)
-            tol = K * EPS * kap * M
+            # M already grows with the norms of the balanced solutions, i.e. with the conditioning, so
+            # eps*kappa*M double-counts it for nearly degenerate sets: measured over 1600 histories (13
+            # decades of kappa) the error stays below 160*eps*sqrt(kappa)*M, and the tolerance is the
+            # smaller of the two bounds
+            Mcw = max(getattr(self, "_m_cw", M), abs(ratio_f), 1.0)
+            # third bound, with the component-wise magnitude (worst measured: 26 in units of eps*kappa*Mcw)
+            tol = min(K * EPS * kap * M, K14 * EPS * math.sqrt(kap) * M, KCW * EPS * kap * Mcw)
             self.counts["det"] += 1
             for name, got in (("one", sig_k), ("all", float(sig_all[k]))):
                 err = abs(got - ratio_f)
                 self.out.ratio("C14.det_%s/(eps*kappa*M)" % name, err / (EPS * kap * M))
+                self.out.ratio("C14.det_%s/(eps*sqrt(kappa)*M)" % name, err / (EPS * math.sqrt(kap) * M))
+                self.out.ratio("C14.det_%s/(eps*kappa*Mcw)" % name, err / (EPS * kap * Mcw))
                 if not (err <= tol):
                     self.out.fail("C14.ratio." + name, "determinants(x, %s) = %r but the exact ratio det(W_new)/det(W_old) "
                                   "is %r (kappa %.3g, n=%d, npt=%d, index %d)"
@@ -191,7 +219,8 @@ class Driver:
                         M2 = self.formula_magnitude(kk, xn)
                         M2 = max(1.0, abs(r2)) if M2 is None else max(M2, abs(r2), 1.0)
                         self.out.ratio("C14.det_all/(eps*kappa*M)", err / (EPS * kap * M2))
-                        if not (err <= K * EPS * kap * M2):
+                        self.out.ratio("C14.det_all/(eps*sqrt(kappa)*M)", err / (EPS * math.sqrt(kap) * M2))
+                        if not (err <= min(K * EPS * kap * M2, K14 * EPS * math.sqrt(kap) * M2)):
                             self.out.fail("C14.ratio.all", "determinants(x)[%d] = %r but the exact ratio is %r "
                                           "(kappa %.3g)" % (kk, float(sig_all[kk]), r2, kap), kappa=kap, ratio=r2)
         key = np.asarray(xn, float).tobytes()
@@ -274,7 +303,7 @@ class Driver:
         pts = np.array([m.interpolation.point(k) for k in range(self.npt)])
         probes = [pts.mean(axis=0), 0.5 * (pts[0] + pts[-1])]
         outv = []
-        scale = max(1.0, float(np.max(np.abs(m.fun_val))))
+        scale = max(self.vscale, float(np.max(np.abs(m.fun_val))))
         for p in probes:
             mag = self.ex[0].mag(X.frv(p)) if self.exact_ok else scale
             outv.append(("value", [m.fun(p)], max(mag, scale)))
@@ -308,7 +337,7 @@ class Driver:
         self.t_total += 1
         ksr, tsr = self.kappa_since_reset, self.t_since_reset
         pts = [m.interpolation.point(k) for k in range(npt)]
-        scale = max(1.0, float(np.max(np.abs(m.fun_val))), float(np.max(np.abs(m.cub_val))))
+        scale = max(self.vscale, float(np.max(np.abs(m.fun_val))), float(np.max(np.abs(m.cub_val))))
         if self.exact_ok:
             mscale = max(scale, max(e.mag(X.frv(p)) for e in self.ex for p in pts))
         else:
@@ -446,11 +475,12 @@ def make_machine(focus, nmax, neardeg=(0, 0, 0, 20, 30, 40)):
             self.out = Outcome()
 
         @initialize(n=st.integers(1, nmax), frac=st.integers(0, 100), x0=st.lists(dy8(), min_size=5, max_size=5),
-                    vals=st.lists(dy8(), min_size=42, max_size=42))
-        def setup(self, n, frac, x0, vals):
+                    vals=st.lists(dy8(), min_size=42, max_size=42),
+                    vscale=st.sampled_from([1.0, 1.0, 1.0, 2.0 ** -60, 2.0 ** 40]))
+        def setup(self, n, frac, x0, vals, vscale):
             lo, hi = n + 1, (n + 1) * (n + 2) // 2
             npt = lo + (hi - lo) * frac // 100
-            self.init_spec = enc({"n": n, "npt": npt, "x0": x0[:n], "vals": vals})
+            self.init_spec = enc({"n": n, "npt": npt, "x0": x0[:n], "vals": vals, "vscale": vscale})
             self.drv = Driver(self.init_spec, focus)
             self.out.fails.extend(self.drv.out.fails)
             self.out.ratios.update(self.drv.out.ratios)
